@@ -248,6 +248,10 @@ func main() {
 		}
 		return
 	}
+	if os.Args[1] == "selftest" {
+		selftest(defs, repo, os.Args[2:])
+		return
+	}
 	c := defs[os.Args[1]]
 	if c == nil {
 		die2("unknown property %q", os.Args[1])
@@ -557,4 +561,72 @@ func replayPart(path string, n int) int {
 		return 0
 	}
 	return rf.Part
+}
+
+// selftest proves determinism: for every check part, the same PRNG value is run in fresh
+// processes with GOMAXPROCS 1, 4 and 16 (twice each) and the sets of history fingerprints,
+// the counters and the verdicts must be identical.
+func selftest(defs map[string]*checkDef, repo string, only []string) {
+	n := env("VERIF_SELFTEST_SCENARIOS", "60")
+	fail := 0
+	for _, id := range sortedIDs(defs) {
+		if len(only) > 0 && !contains(only, id) {
+			continue
+		}
+		c := defs[id]
+		for pi, p := range c.parts() {
+			bin := buildWorld(p, repo)
+			var ref string
+			for run, gmp := range []string{"1", "4", "16", "1", "16", "4"} {
+				runDir := filepath.Join(verifDir, ".build", "run", fmt.Sprintf("selftest-%s-%d-%d", id, pi, run))
+				os.MkdirAll(runDir, 0o755)
+				outp := filepath.Join(runDir, "w.json")
+				cmd := exec.Command(bin, "-test.run", "^TestWorker$", "-test.timeout", "0")
+				cmd.Dir = runDir
+				cmd.Env = append(os.Environ(), "VERIF_PROP="+id, "VERIF_TIER=quick", "VERIF_SEED="+env("VERIF_SEED", "7"), "VERIF_WORKER=0", "VERIF_NWORKERS=1",
+					"VERIF_MAX_SCENARIOS="+n, "VERIF_MAX_SECONDS=3600", "VERIF_OUT="+outp, "VERIF_REPLAY_DIR="+runDir,
+					"VERIF_KNOWN="+filepath.Join(verifDir, "known_findings.json"), "VERIF_SCRATCH="+filepath.Join(runDir, "scratch"),
+					"GORACE=log_path="+filepath.Join(runDir, "race")+" halt_on_error=0 exitcode=0", "VERIF_RACE_LOG="+filepath.Join(runDir, "race"),
+					fmt.Sprintf("VERIF_PART=%d", pi), "GOMAXPROCS="+gmp)
+				cmd.Env = append(cmd.Env, p.Env...)
+				ob, err := cmd.CombinedOutput()
+				rb, _ := os.ReadFile(outp)
+				var r sim.WorkerResult
+				json.Unmarshal(rb, &r)
+				os.RemoveAll(runDir)
+				if err != nil || !r.Done {
+					fmt.Printf("selftest %s part %d (%s) GOMAXPROCS=%s: TROUBLE %v\n%s\n", id, pi, p.World, gmp, err, tail(string(ob), 20))
+					fail++
+					break
+				}
+				cb, _ := json.Marshal(r.Counters)
+				vb, _ := json.Marshal(r.Violations)
+				sig := fmt.Sprintf("scen=%d exec=%d nontriv=%d hist=%v fps=%v counters=%s viol=%s known=%v", r.Scenarios, r.Executions, r.Nontrivial, r.DistinctHist, r.DistinctFPs, cb, vb, r.Known)
+				if run == 0 {
+					ref = sig
+					continue
+				}
+				if sig != ref {
+					fmt.Printf("selftest %s part %d (%s): NONDETERMINISTIC at GOMAXPROCS=%s\n ref: %.400s\n got: %.400s\n", id, pi, p.World, gmp, ref, sig)
+					fail++
+					break
+				}
+			}
+			if fail == 0 {
+				fmt.Printf("selftest %s part %d (%s): deterministic over 6 fresh processes (GOMAXPROCS 1/4/16), %s scenarios each\n", id, pi, p.World, n)
+			}
+		}
+	}
+	if fail > 0 {
+		os.Exit(1)
+	}
+}
+
+func contains(l []string, x string) bool {
+	for _, y := range l {
+		if y == x {
+			return true
+		}
+	}
+	return false
 }
